@@ -923,3 +923,29 @@ pub const ALL_LINKS: [LinkKind; 14] = [
 pub fn load_model(path: &std::path::Path) -> Option<Model> {
     Model::from_json(&std::fs::read_to_string(path).ok()?).ok()
 }
+
+/// Outline variations that leave the surface unchanged: a redundant vertex in the middle of an edge (half of the
+/// time the first edge, so that the outline starts with three collinear points) and, more rarely, the same
+/// counter-clockwise outline listed from another start vertex. Returns how many walls were changed.
+pub fn vary_outlines(rng: &mut Rng, m: &mut Model, share: f64) -> usize {
+    let mut n = 0;
+    for w in m.walls.iter_mut() {
+        let p = &mut w.geometry.polygon;
+        if p.len() < 3 || !rng.chance(share) {
+            continue;
+        }
+        if rng.chance(0.25) {
+            let k = rng.usize(p.len());
+            p.rotate_left(k);
+        }
+        let e = if rng.chance(0.5) { 0 } else { rng.usize(p.len()) };
+        let (a, b) = (p[e], p[(e + 1) % p.len()]);
+        // exact midpoint only where it is exactly collinear in f32: axis-parallel edges
+        if a.x == b.x || a.y == b.y {
+            let mid = bemodel::Point2::new((a.x + b.x) / 2.0, (a.y + b.y) / 2.0);
+            p.insert(e + 1, mid);
+            n += 1;
+        }
+    }
+    n
+}
